@@ -8,6 +8,7 @@
 //	xpoa.go    the same for the XPoA schedule
 //	single.go  proposer x signature x public-key combinations
 //	pow.go     compact target codec, IsProofed, CheckMinerMatch over stub chains
+//	powhist.go CheckMinerMatch under every short call history of one instance
 //
 // Oracles. TDPoS / XPoA: structural (triples non-decreasing, every cell has
 // block_num consecutive slots, every term all positions in order, nothing out
@@ -22,7 +23,16 @@
 // signature valid. The retarget formula (clamp x4 / :4, floor at the max
 // target) is checked on the ancestors the implementation reads; that it reads
 // them one block later than Bitcoin's pow.cpp is an evidence counter only
-// (pow.lags_bitcoin_rule_by_one_block).
+// (pow.lags_bitcoin_rule_by_one_block). pow.history adds the call history as a
+// dimension: chains built by the reference formula across two retarget heights,
+// one instance constructed at every tip height (start-up and restart path) and
+// driven through every fixed-length sequence over {ProcessBeforeMiner,
+// CheckMinerMatch on all candidates on the tip / beside the tip, confirm the
+// next block}; every verdict is judged by the reference formula on the block's
+// own ancestors and must equal the verdict of a baseline history (up since
+// genesis, mining round just started) - the target is prescribed by the chain,
+// not by what the instance happened to do before. Panics of the constructor on
+// the restart path are evidence (pow.history.panic_observations), not verdicts.
 //
 // Nothing is sampled: every domain is an explicit finite list iterated in index
 // order; goroutines only partition the list.
